@@ -193,9 +193,32 @@ def ob_schema_flow(ctx, res):
     # library: default None -> BED3, stored as C string, field_count from the last parsed declaration (fallback 3)
     wp = ctx.ast.fn(BW, "write_pre")
     t = up(wp.body)
-    if "autosql.unwrap_or_else(|| crate::bed::autosql::BED3.to_string())" not in t:
-        res.fail("schemaFlow/default", wp, "the library default schema must be the three-field BED3")
-        return
+    # the schema written when none was given: the statement re-binding `autosql` is evaluated for None / Some(text)
+    from ..rules.interp import Interp, NotPure
+    dl = [x for x in wp.body["stmts"] if x.k == "let" and x["pat"].k == "p_ident" and x["pat"]["name"] == "autosql" and x.get("init") is not None and "BED3" in up(x["init"])]
+    if len(dl) != 1:
+        res.undecided("schemaFlow/default", wp, "the statement choosing the default schema (BED3) was not located")
+    else:
+        def _m(m, recv, args):
+            if isinstance(recv, str) and m in ("to_string", "to_owned", "into", "clone") and not args:
+                return recv
+            raise NotPure("method " + m)
+        bad = None
+        for given, want in ((None, "BED3TEXT"), (("some", "USER"), "USER")):
+            try:
+                got = Interp(ctx.ast, BW, extern={"None": None, "method": _m, "path": lambda p_: "BED3TEXT" if p_.split("::")[-1] == "BED3" else (_ for _ in ()).throw(NotPure("free name " + p_))}).ev(
+                    dl[0]["init"], {"autosql": given}, 0)
+            except NotPure as e:
+                bad = ("undecided", str(e))
+                break
+            if got != want:
+                bad = ("differs", "with %s the stored schema is %s, required %s" % ("no schema given" if given is None else "a schema given", got, want))
+                break
+        if bad and bad[0] == "undecided":
+            res.undecided("schemaFlow/default", dl[0], "default schema selection not evaluated (%s)" % bad[1])
+        elif bad:
+            res.fail("schemaFlow/default", dl[0], "the library default schema must be the three-field BED3 and a given schema must be kept: %s" % bad[1])
+            return
     # the field count is a small pure function of the parse result: it is evaluated for (unparsable schema, no declaration, two declarations)
     from ..rules.interp import Interp, NotPure
     st = wp.body["stmts"]
